@@ -5,7 +5,9 @@ Rules (keys are rule:unit:function:construct):
   R07.2 results of 64-bit host arithmetic reduced to node->ty (u32 arms; every ND_CAST target class)
   R07.3 mixed-sign conditional widened afterwards (typed pattern, all units)
   R07.4 zero divisor tested and diagnosed before every integer host / and %
-  R07.5 is_const_expr <-> eval2: accepted kinds have arms, foldable kinds are accepted, operands required constant
+  R07.5 is_const_expr <-> eval2 and every helper predicate mutually recursive with it (is_const_lvalue) <-> the folder its operand goes to (eval_rval; the
+        pairing is inferred from the arms): a kind accepted under a class of node types is folded without a relocation for every type of that class,
+        foldable arithmetic kinds are accepted for every type class, every operand the folder evaluates was required constant by the predicate of its folder
   R07.6 operands that may be floating never go through the integer folder unguarded (eval2 and eval_double)
   R07.7 consumers: no narrow intermediate that is widened again; const_expr returns the value unchanged;
         shifts by bit_width/bit_offset are 64-bit (all units); case labels: see R03.2
@@ -48,6 +50,7 @@ NODE = ('sym', 'node')
 LABEL = ('sym', 'label')
 FOLD = ('eval2', 'eval_double', 'eval_rval', 'is_const_expr')
 INT_FOLD = ('eval2', 'eval_rval')
+EVALUATORS = ('eval2', 'eval_double', 'eval_rval')
 
 BINOPS = {'ND_ADD': '+', 'ND_SUB': '-', 'ND_MUL': '*', 'ND_DIV': '/', 'ND_MOD': '%', 'ND_BITAND': '&', 'ND_BITOR': '|',
           'ND_BITXOR': '^', 'ND_SHL': '<<', 'ND_SHR': '>>', 'ND_EQ': '==', 'ND_NE': '!=', 'ND_LT': '<', 'ND_LE': '<='}
@@ -131,6 +134,37 @@ class Folder:
         for need in ('is_integer', 'is_flonum'):
             if need not in self.preds:
                 raise AnalysisBroken('type.c:%s vanished' % need)
+        if 'TY_ARRAY' in self.tk and 'array' not in self.trec:
+            # the class of array types (an lvalue of array type stands for an address): only its kind is looked at
+            self.trec['array'] = {'kind': self.tk['TY_ARRAY'], 'size': 8, 'is_unsigned': 0, 'base': 1, 'align': 1}
+        self.acceptors = self._acceptors()
+
+    def _callees(self, fname):
+        fd = self.u.functions.get(fname)
+        if fd is None:
+            return set()
+        return set(c.callee() for c in fd.walk() if c.kind == 'CallExpr' and c.callee() in self.u.functions)
+
+    def _reach(self, fname):
+        """functions reachable from fname by calls that do not pass through the evaluators"""
+        seen = set(); st = [fname]
+        while st:
+            f = st.pop()
+            for g in self._callees(f):
+                if g not in seen:
+                    seen.add(g)
+                    if g not in EVALUATORS:
+                        st.append(g)
+        return seen
+
+    def _acceptors(self):
+        """is_const_expr and the helpers it is mutually recursive with (the constant-ness predicate of lvalues): each is summarised per
+        node kind on its own, a call of one from another is kept as an atom (the recursion is cut by contract: structural induction)"""
+        out = ['is_const_expr']
+        for f in sorted(self._reach('is_const_expr')):
+            if f != 'is_const_expr' and f not in EVALUATORS and ('is_const_expr' in self._reach(f) or f in self._reach(f)):
+                out.append(f)      # mutually recursive with is_const_expr, or a recursive helper of it
+        return tuple(out)
 
     def paths(self, fname, kind, label=LABEL):
         key = (fname, kind, label)
@@ -141,7 +175,7 @@ class Folder:
                 if base == NODE and f == 'kind':
                     return ('int', kv)
                 return None
-            ex = SymExec(self.P, self.u, opaque=FOLD, field_hook=hook)
+            ex = SymExec(self.P, self.u, opaque=FOLD + tuple(self.acceptors), field_hook=hook)
             try:
                 args = [NODE, label] if fname in ('eval2', 'eval_rval') else [NODE]
                 self.cache[key] = ex.run(fname, args)
@@ -1057,88 +1091,212 @@ def r074(F, rep):
 
 # ------------------------------------------------------------------ R07.5 ---
 def _evaluated_children(ps):
-    """children handed to the folder on returning paths"""
+    """{(child, folder)} for the children handed to the folder on returning paths"""
     out = set()
     for p in ps:
         if p.outcome[0] != 'ret':
             continue
         for e in p.events:
             if e[0] == 'call' and e[1] in FOLD and e[2] and e[2][0][0] == 'fld' and e[2][0][1] == NODE:
-                out.add(e[2][0][2])
+                out.add((e[2][0][2], e[1]))
     return out
+
+
+def _acc_arg(F, v):
+    """v = acceptor(node->child) / acceptor(node) -> (acceptor, child or '') else None"""
+    if v[0] == 'call' and v[1] in F.acceptors and v[2]:
+        a = v[2][0]
+        if a[0] == 'fld' and a[1] == NODE:
+            return v[1], a[2]
+        if a == NODE:
+            return v[1], ''
+    return None
+
+
+def _implied(F, p):
+    """the acceptor facts an accepting path establishes: ({(acceptor, child)}, answer recognised?)"""
+    out = set()
+    for a, t in p.guards:
+        r = _acc_arg(F, a)
+        if r and t:
+            out.add(r)
+        elif t and a[0] == 'call' and a[1] in F.acceptors:
+            return out, False      # a predicate on something other than the node or a child of it: not interpreted
+    v = strip_widening(p.outcome[1])
+    r = _acc_arg(F, v)
+    if r:
+        out.add(r)
+        return out, True
+    # a constant, or a fact about the node's type (`return is_integer(node->ty);`): _path_admits evaluates it per type class
+    return out, v[0] == 'int' or F.facts(node='int').ev(v) is not None
+
+
+def _path_admits(F, q, t):
+    """is the accepting path q taken, and its answer true, for a node of type class t?"""
+    if not F.facts(node=t).select([q]):
+        return False
+    v = strip_widening(q.outcome[1])
+    if v[0] == 'int' or _acc_arg(F, v):
+        return True
+    x = F.facts(node=t).ev(v)
+    return bool(x)
+
+
+def _accepting(F, acc, kind):
+    ps = []
+    for p in F.paths(acc, kind):
+        if p.outcome[0] != 'ret':
+            continue
+        r = strip_widening(p.outcome[1])
+        if r[0] == 'int' and r[1] == 0:
+            continue
+        ps.append(p)
+    return ps
+
+
+def _node_types(F, kind):
+    """type classes a node of the kind can have (typing relation): arithmetic operators yield arithmetic / pointer values; an lvalue kind has any type"""
+    if kind in BINOPS or kind in UNOPS or kind in TRUTH:
+        return tuple(F.admitted(kind)) + F.FLOLIKE
+    return tuple(sorted(F.trec))
 
 
 def r075(F, rep):
     u = F.u
-    rep.rule('R07.5', 'every kind is_const_expr accepts has an eval2 arm; every pure arithmetic kind eval2 folds is accepted; '
-                      'acceptance implies that every operand the folder evaluates is itself constant', floor=20)
+    rep.rule('R07.5', 'constant-ness predicate and folder agree (is_const_expr <-> eval2/eval_double, and each helper predicate it is mutually recursive with <-> the folder '
+                      'its operand goes to): every kind accepted under some class of node types is folded, without a relocation, for every type of that class; every pure '
+                      'arithmetic kind eval2 folds is accepted; acceptance implies that every operand the folder evaluates was required constant by the predicate of the folder it goes to', floor=20)
     null = ('int', 0)
-    accepted = {}
-    for kind in F.kinds:
-        try:
-            cps = F.paths('is_const_expr', kind)
-        except Unsupported as e:
-            rep.undecided('R07.5', '%s:is_const_expr:%s' % (U, kind), 'cannot summarise: %s' % e)
-            continue
-        acc = []
-        for p in cps:
-            if p.outcome[0] != 'ret':
+    accepted = {}      # acceptor -> kind -> [accepting paths]
+    for acc in F.acceptors:
+        accepted[acc] = {}
+        for kind in F.kinds:
+            try:
+                ps = _accepting(F, acc, kind)
+            except Unsupported as e:
+                rep.undecided('R07.5', '%s:%s:%s' % (U, acc, kind), 'cannot summarise: %s' % e)
                 continue
-            r = strip_widening(p.outcome[1])
-            if r[0] == 'int' and r[1] == 0:
-                continue
-            acc.append(p)
-        if acc:
-            accepted[kind] = acc
-    if len(accepted) < 10:
-        rep.undecided('R07.5', '%s:is_const_expr:kinds' % U, 'only %d accepted kinds recognised' % len(accepted))
+            if ps:
+                accepted[acc][kind] = ps
+    if len(accepted['is_const_expr']) < 10:
+        rep.undecided('R07.5', '%s:is_const_expr:kinds' % U, 'only %d accepted kinds recognised' % len(accepted['is_const_expr']))
         return
-    for kind in F.kinds:
-        try:
-            eps = [p for p in F.int_paths(kind, null)]
-        except Unsupported as e:
-            if kind in accepted:
-                rep.undecided('R07.5', '%s:is_const_expr:%s' % (U, kind), 'cannot summarise eval2: %s' % e)
+    # a path that delegates to another predicate on the node itself (`ty is array && is_const_lvalue(node)`) is accepted only as far as that one accepts the kind
+    def expand(acc, kind, depth=0):
+        """[(guard paths [p..], implied {(acceptor, child)}, recognised)] for the ways acc accepts kind, delegations on the node itself resolved"""
+        out = []
+        for p in accepted.get(acc, {}).get(kind, []):
+            imp, rec = _implied(F, p)
+            own = [(a, c) for a, c in imp if c == '' and a != acc]
+            rest = set((a, c) for a, c in imp if c != '')
+            alts = [([p], rest, rec)]
+            for a, c in own:
+                nxt = []
+                subs = expand(a, kind, depth + 1) if depth < 3 else []
+                for gp, im, rc in alts:
+                    for gp2, im2, rc2 in subs:
+                        nxt.append((gp + gp2, im | im2, rc and rc2))
+                alts = nxt
+            out += alts
+        return out
+    # which folder belongs to which predicate: is_const_expr speaks for eval2 / eval_double; a helper predicate for the folder that the operand it judges goes to
+    pair = {'is_const_expr': ('eval2', 'eval_double')}
+    for _ in range(len(F.acceptors)):
+        for acc in [a for a in F.acceptors if a in pair]:
+            for kind in F.kinds:
+                for gp, imp, rec in expand(acc, kind):
+                    for a2, c in imp:
+                        if a2 in pair:
+                            continue
+                        try:
+                            fps = [p for p in F.paths(pair[acc][0], kind, null) if p.outcome[0] == 'ret']
+                        except Unsupported:
+                            continue
+                        gs = set(g for cc, g in _evaluated_children(fps) if cc == c)
+                        if len(gs) == 1:
+                            pair[a2] = tuple(gs)
+    of_folder = {}
+    for a, gs in pair.items():
+        for g in gs:
+            of_folder[g] = a
+    for acc in F.acceptors:
+        if acc not in pair:
+            rep.undecided('R07.5', '%s:%s:folder' % (U, acc), 'the folder whose operands %s judges is not recognised (no arm of eval2 hands an operand that %s accepts to one folder)' % (acc, acc),
+                          where='%s:%d' % (U, u.fn(acc).line))
+    for acc in F.acceptors:
+        if acc not in pair:
             continue
-        rets = [p for p in eps if p.outcome[0] == 'ret' and not any(e[0] == 'store' for e in p.events)]
-        w = '%s:%d' % (U, line_of_kind(u, 'is_const_expr', F.E[kind]))
-        if kind in accepted:
-            rep.ob('R07.5', '%s:is_const_expr:%s/has-folder-arm' % (U, kind), bool(rets),
-                   'is_const_expr accepts %s but eval2 has no arm that folds it in an integer constant context: an array bound using it is declared constant and then rejected' % kind, where=w)
-            if not rets:
+        fold = pair[acc][0]
+        for kind in F.kinds:
+            w = '%s:%d' % (U, line_of_kind(u, acc, F.E[kind]))
+            try:
+                fps = F.paths(fold, kind, null)
+                if fold == 'eval2':
+                    fps = [p for p in fps if F._consistent(p, tuple(sorted(F.trec)))]
+            except Unsupported as e:
+                if kind in accepted[acc]:
+                    rep.undecided('R07.5', '%s:%s:%s' % (U, acc, kind), 'cannot summarise %s: %s' % (fold, e))
                 continue
-            ev = _evaluated_children(rets)
-            # implied-constant operands per accepting path
-            good = True; msg = ''
-            union = set()
-            for p in accepted[kind]:
-                implied = set()
-                for a, t in p.guards:
-                    if a[0] == 'call' and a[1] == 'is_const_expr' and t and a[2] and a[2][0][0] == 'fld' and a[2][0][1] == NODE:
-                        implied.add(a[2][0][2])
-                r = strip_widening(p.outcome[1])
-                if r[0] == 'call' and r[1] == 'is_const_expr' and r[2] and r[2][0][0] == 'fld' and r[2][0][1] == NODE:
-                    implied.add(r[2][0][2])
-                elif r[0] != 'int':
-                    good = False; msg = 'is_const_expr(%s) answers %s, which is not a conjunction of is_const_expr(child)' % (kind, show(r))
-                union |= implied
-                if kind == 'ND_COND':
-                    c = _rec_guards(p).get('cond')
-                    need = {'cond', 'then' if c else 'els'} if c is not None else {'cond', 'then', 'els'}
-                else:
-                    need = ev
-                miss = need - implied
-                if miss and good:
-                    good = False
-                    msg = ('is_const_expr answers true for %s without requiring %s to be constant, but eval2 evaluates it: '
-                           'an array bound with a non-constant %s is treated as constant and rejected instead of becoming a VLA' % (kind, ','.join(sorted(miss)), ','.join(sorted(miss))))
-            rep.ob('R07.5', '%s:is_const_expr:%s/operands-required-constant' % (U, kind), good, msg, where=w)
-        else:
-            pure = bool(rets) and all(all(e[0] == 'call' and e[1] in ('eval2', 'eval_double', 'add_type', 'is_flonum', 'is_integer') for e in p.events) for p in rets)
-            if pure and (kind in BINOPS or kind in UNOPS or kind in TRUTH or kind in ('ND_COND', 'ND_COMMA', 'ND_CAST', 'ND_NUM')):
-                rep.ob('R07.5', '%s:is_const_expr:%s/not-accepted' % (U, kind), False,
-                       'eval2 folds %s but is_const_expr does not accept it: an array bound using it (`int a[7%%4];`) is taken for a variable-length array: at file scope the object gets an 8-byte VLA slot and sizeof(a) kills the compiler with SIGSEGV, in a function a VLA is allocated' % kind,
-                       where='%s:%d' % (U, u.fn('is_const_expr').line))
+            alts = expand(acc, kind) if kind in accepted[acc] else []
+            if alts:
+                good_arm = True; arm_msg = ''
+                good = True; msg = ''
+                und = None
+                acc_types = set()
+                for gp, implied, rec in alts:
+                    if not rec:
+                        und = '%s(%s) answers %s under %s: not a conjunction of constant-ness predicates on the node and its operands' % (
+                            acc, kind, show(gp[0].outcome[1]), ', '.join(show(a) for q in gp for a, t in q.guards if t and a[0] == 'call' and a[1] in F.acceptors) or 'no predicate')
+                        continue
+                    # the classes of node types under which this way of accepting is taken
+                    types = [t for t in _node_types(F, kind) if all(_path_admits(F, q, t) for q in gp)]
+                    if not types:
+                        continue
+                    acc_types.update(types)
+                    rejected = []
+                    ev = set()
+                    for t in types:
+                        rets = [p for p in F.facts(node=t).select(fps) if p.outcome[0] == 'ret' and not any(e[0] == 'store' for e in p.events)]
+                        if not rets:
+                            rejected.append(t)
+                        if kind == 'ND_COND' and fold == 'eval2':
+                            continue
+                        ev |= _evaluated_children(rets)
+                    if rejected:
+                        good_arm = False
+                        arm_msg = ('%s accepts %s for a node of type class %s but %s has no arm that folds it there without a relocation: an array bound / enumerator using it is declared '
+                                   'constant and then rejected ("not a compile-time constant" / "invalid initializer")' % (acc, kind, ','.join(rejected), fold))
+                    if kind == 'ND_COND' and fold == 'eval2':
+                        c = _rec_guards(gp[0]).get('cond')
+                        names = {'cond', 'then' if c else 'els'} if c is not None else {'cond', 'then', 'els'}
+                        need = set((n, 'is_const_expr') for n in names)
+                    else:
+                        need = set((c, of_folder.get(g, '?')) for c, g in ev)
+                    miss = sorted(c for c, a in need if (a, c) not in implied)
+                    if miss and good:
+                        good = False
+                        msg = ('%s answers true for %s without requiring %s to be constant (by the predicate of the folder it goes to), but %s evaluates it: '
+                               'an array bound with a non-constant %s is treated as constant and rejected instead of becoming a VLA' % (acc, kind, ','.join(miss), fold, ','.join(miss)))
+                rep.ob('R07.5', '%s:%s:%s/has-folder-arm' % (U, acc, kind), good_arm, arm_msg, where=w)
+                if good_arm and good and und:
+                    rep.undecided('R07.5', '%s:%s:%s/operands-required-constant' % (U, acc, kind), und, where=w)
+                elif good_arm:
+                    rep.ob('R07.5', '%s:%s:%s/operands-required-constant' % (U, acc, kind), good, msg, where=w)
+            if acc == 'is_const_expr' and (kind in BINOPS or kind in UNOPS or kind in TRUTH or kind in ('ND_COND', 'ND_COMMA', 'ND_CAST', 'ND_NUM')):
+                # the other direction, per class of node types: what eval2 folds with pure arithmetic is accepted
+                left = []
+                for t in (_node_types(F, kind) if kind in BINOPS or kind in UNOPS or kind in TRUTH else F.INTLIKE + F.FLOLIKE):
+                    if alts and t in acc_types:
+                        continue
+                    rets = [p for p in F.facts(node=t).select(fps) if p.outcome[0] == 'ret' and not any(e[0] == 'store' for e in p.events)]
+                    if rets and all(all(e[0] == 'call' and e[1] in ('eval2', 'eval_double', 'add_type', 'is_flonum', 'is_integer') for e in p.events) for p in rets):
+                        left.append(t)
+                if left:
+                    full = not alts or not acc_types
+                    rep.ob('R07.5', '%s:is_const_expr:%s/not-accepted%s' % (U, kind, '' if full else ':' + ','.join(left)), False,
+                           ('' if full else 'for a node of type class %s: ' % ','.join(left)) +
+                           'eval2 folds %s but is_const_expr does not accept it: an array bound using it (`int a[7%%4];`) is taken for a variable-length array: at file scope the object gets an 8-byte VLA slot and sizeof(a) kills the compiler with SIGSEGV, in a function a VLA is allocated' % kind,
+                           where='%s:%d' % (U, u.fn('is_const_expr').line))
 
 
 # ------------------------------------------------------------------ R07.6 ---
@@ -1178,7 +1336,6 @@ def r076(F, rep):
 
 
 # ------------------------------------------------------------------ R07.9 ---
-EVALUATORS = ('eval2', 'eval_double', 'eval_rval')
 # operators whose operands are evaluated conditionally (C11 6.5.13p4, 6.5.14p4, 6.5.15p4):
 # kind -> (deciding child, {truth of the deciding child: operands evaluated in addition to it})
 LAZY = {'ND_COND': ('cond', {True: ('then',), False: ('els',)}),
